@@ -461,6 +461,12 @@ def run_symlink(res):
     of the same relative names: relative INCLUDEs resolve against the directory of the path that was opened, for open and load alike"""
     def body(root_dir, elsewhere):
         real = os.path.join(elsewhere, "releases")
+        try:
+            os.symlink(os.path.join(elsewhere, "nothing"), os.path.join(elsewhere, "probe_link"))
+            os.remove(os.path.join(elsewhere, "probe_link"))
+        except (OSError, NotImplementedError, AttributeError):
+            R.add_skip(res, "this file system does not support symbolic links")
+            return
         for style in (PATH_STYLES[0], PATH_STYLES[2], PATH_STYLES[5]):
             for nl in ("\n", "\r\n"):
                 for what in ("root_is_link", "include_is_link", "both"):
